@@ -319,7 +319,9 @@ def defn_corpus():
           ('pow(as.polynomial 1.0 0.5, as.constant 3.0)', [0.75, 2.0]), ('pow(as.bornmayer 10.0 1.5, as.polynomial 1.0 0.25)', [1.25]),
           ('spline(>0 as.zbl 14 8 >0.8 exp_spline >1.4 sum(as.buck 18003.7572 0.2052048149 133.5381, as.coul 2.4 -1.2))', [1.0, 1.3, 1.6]),
           ('sum(as.constant 1.0, >=2.0 sum(as.constant 10.0, as.polynomial 0.0 100.0))', [0.5, 2.5]), ('product(as.polynomial 1.0 -0.2, as.lj 0.0103 3.4)', [5.0, 3.4, 4.0]),
-          ('trans(>=0 as.polynomial 1.0 2.0 1.5, as.constant -2.0)', [1.0, 2.5])]
+          ('trans(>=0 as.polynomial 1.0 2.0 1.5, as.constant -2.0)', [1.0, 2.5]),
+          # a negative base with a constant integer exponent (the manual's own example): real and differentiable (fix 4dbb85c)
+          ('pow(sum(as.constant -1.0, as.polynomial 0.0 0.25), as.constant 2)', [1.0, 2.0, 6.0]), ('pow(as.polynomial -3.0 0.5, as.constant 3)', [1.0, 4.0])]
     return [{'defn': d, 'r': r} for d, rs in ds for r in rs]
 
 def oracle(case):
@@ -353,6 +355,12 @@ def oracle(case):
         try:
             num = richardson(base, r); got = offered(r)
         except Exception as e:
+            if 'defn' in case:
+                # a fixed definition, differentiable at r: the numerical slope exists, so the offered derivative must too
+                try: ok_num = math.isfinite(richardson(base, r))
+                except Exception: ok_num = False
+                if ok_num: fails.append('%s(%r) raised %s: %s although the %s has the numerical slope %r there' % (nm, r, type(e).__name__, e, 'energy' if nm == 'deriv' else 'first derivative', richardson(base, r)))
+                continue
             if type(e).__name__ in ('OverflowError', 'ZeroDivisionError', 'ValueError') and not case.get('smooth_at_r'): continue
             fails.append('%s(%r) raised %s: %s' % (nm, r, type(e).__name__, e)); continue
         scale = max(1.0, abs(num), abs(got), abs(base(r)) if nm == 'deriv2' else 0.0)
@@ -381,16 +389,5 @@ def search_cases(rng, n):
         if rng.random() < 0.35: yield gen_multi_case(rng)
         else: yield gen_case(rng, rng.choice([1, 2, 3]))
 
-def finding_for(case, fails):
-    # C07-pow-negbase: the offered derivative of a power with a negative base raises instead of returning the slope
-    if 'defn' in case and 'pow(' in case['defn'] and fails and all('math domain error' in f for f in fails): return 'C07-pow-negbase'
-    return None
-def replay_finding(f):
-    if f.get('id') == 'C07-pow-negbase':
-        g = defn_build(f['input']['defn']); r = f['input']['r']
-        e = g(r)
-        if not (math.isfinite(e) and abs(richardson(g, r) - 2 * (-1.0 + 0.25 * r) * 0.25) < 1e-6): return False      # the energy is (0.25 r - 1)^2 and differentiable
-        try: g.deriv(r)
-        except ValueError: return True
-        return False
-    return False
+def finding_for(case, fails): return None
+def replay_finding(f): return False
